@@ -106,19 +106,21 @@ Qed.
 Print Assumptions C07_latest_write_wins.
 
 (* Staging h; any operations that stay inside the level (no release/cleanup of h or of an outer level, no
-   revert to a checkpoint taken before Staging); Cleanup h while h is the live handle: the buffer is EXACTLY
-   the one before Staging, so every observable is. Holds for the code as it is (ip = true). *)
+   revert to a checkpoint taken before Staging); Cleanup h while h is the live handle: value log and staging
+   stack are EXACTLY those before Staging, so every observable is. Holds for the code as it is (ip = true).
+   (lastCheckpoint may end up at the cut instead of below it; it only restricts later in-place overwrites.) *)
 Theorem C07_cleanup_restores : forall ip st ops,
   let st1 := step ip st OStaging in
   let h := staging_handle st in
   Forall (scoped_op h (checkpoint_pos st)) ops ->
   handle_live (run ip ops st1) h = true ->
-  step ip (run ip ops st1) (OCleanup h) = st /\
+  b_log (step ip (run ip ops st1) (OCleanup h)) = b_log st /\
+  b_stages (step ip (run ip ops st1) (OCleanup h)) = b_stages st /\
   obs_eq (step ip (run ip ops st1) (OCleanup h)) st.
 Proof.
   intros ip st ops st1 h Ho Hl.
-  assert (E : step ip (run ip ops st1) (OCleanup h) = st) by (apply cleanup_restores; assumption).
-  split; [exact E|]. rewrite E. apply obs_eq_of_log. reflexivity.
+  destruct (cleanup_restores ip st ops Ho Hl) as [E1 E2].
+  split; [exact E1|]. split; [exact E2|]. apply obs_eq_of_log. exact E1.
 Qed.
 Print Assumptions C07_cleanup_restores.
 
@@ -139,28 +141,30 @@ Qed.
 Print Assumptions C07_release_keeps.
 
 (* cp := Checkpoint(); any operations that stay above it (no release/cleanup of a level that was open at the
-   checkpoint, no revert below it); RevertToCheckpoint(cp): every observable is the one at the checkpoint —
-   for a buffer that never overwrites a value in place (ip = false). *)
-Theorem C07_revert_checkpoint : forall st ops,
+   checkpoint, no revert below it); RevertToCheckpoint(cp): the value log and every observable are the ones at
+   the checkpoint — UNCONDITIONALLY for the code as it is (ip = true; fix 6b4091a: Checkpoint and
+   RevertToCheckpoint record lastCheckpoint and no entry below it is overwritten in place), and for ip = false. *)
+Theorem C07_revert_checkpoint : forall ip st ops,
+  let st1 := step ip st OCheckpoint in
   Forall (scoped_op (length (b_stages st)) (checkpoint_pos st)) ops ->
-  b_log (step false (run false ops st) (ORevert (checkpoint_pos st))) = b_log st /\
-  obs_eq (step false (run false ops st) (ORevert (checkpoint_pos st))) st.
+  b_log (step ip (run ip ops st1) (ORevert (checkpoint_pos st))) = b_log st /\
+  obs_eq (step ip (run ip ops st1) (ORevert (checkpoint_pos st))) st.
 Proof.
-  intros st ops Ho. pose proof (revert_restores st ops Ho) as E. split; [exact E|apply obs_eq_of_log; exact E].
+  intros ip st ops st1 Ho. pose proof (revert_restores ip st ops Ho) as E. split; [exact E|apply obs_eq_of_log; exact E].
 Qed.
 Print Assumptions C07_revert_checkpoint.
 
-(* The same statement for the code as it is (ip = true) is FALSE — known finding F03:
+(* regression witness for the buffer as it was before fix 6b4091a (checkpoints did not protect entries; F03):
    Set(a,"xx"); cp := Checkpoint(); Set(a,"yy"); RevertToCheckpoint(cp); Get(a) = "yy" *)
-Theorem C07_revert_checkpoint_refuted : exists st ops,
+Theorem C07_revert_checkpoint_prefix_refuted : exists st ops,
   Forall (scoped_op (length (b_stages st)) (checkpoint_pos st)) ops /\
-  ~ obs_eq (step true (run true ops st) (ORevert (checkpoint_pos st))) st.
+  ~ obs_eq (step_prefix (run_prefix ops (step_prefix st OCheckpoint)) (ORevert (checkpoint_pos st))) st.
 Proof.
-  exists (run true [OSet [97] [120; 120]] mbuf_empty), [OSet [97] [121; 121]].
+  exists (run_prefix [OSet [97] [120; 120]] mbuf_empty), [OSet [97] [121; 121]].
   split; [repeat constructor|].
   intros H. destruct (H []) as (_ & G & _). specialize (G [97]). vm_compute in G. discriminate G.
 Qed.
-Print Assumptions C07_revert_checkpoint_refuted.
+Print Assumptions C07_revert_checkpoint_prefix_refuted.
 
 (* ---------- non-vacuity ---------- *)
 Example iter_example :
@@ -178,17 +182,19 @@ Example cleanup_example :
   let ops := [OSet [97] [2; 2]; OStaging; ODel [97]; OCleanup 2; OCheckpoint; OSet [97] [3; 3]; ORevert 2] in
   Forall (scoped_op (staging_handle st) (checkpoint_pos st)) ops /\
   handle_live (run true ops (step true st OStaging)) (staging_handle st) = true /\
-  m_get [] (run true ops (step true st OStaging)) [97] = Some [3; 3] /\
-  step true (run true ops (step true st OStaging)) (OCleanup (staging_handle st)) = st.
+  m_get [] (run true ops (step true st OStaging)) [97] = Some [2; 2] /\
+  b_log (step true (run true ops (step true st OStaging)) (OCleanup (staging_handle st))) = b_log st.
 Proof. split; [repeat constructor; cbn; lia|]. repeat split; vm_compute; reflexivity. Qed.
 
 Example revert_example :
-  let st := run false [OSet [97] [1; 1]] mbuf_empty in
-  let ops := [OSet [97] [2; 2]; OStaging; ODel [98]; ORelease 1] in
+  let st := run true [OSet [97] [1; 1]] mbuf_empty in
+  let ops := [OSet [97] [2; 2]; OStaging; ODel [98]; ORelease 1; OSet [97] [3; 3]] in
+  let st1 := step true st OCheckpoint in
   Forall (scoped_op (length (b_stages st)) (checkpoint_pos st)) ops /\
-  m_get [] (run false ops st) [97] = Some [2; 2] /\
-  m_get [] (step false (run false ops st) (ORevert (checkpoint_pos st))) [97] = Some [1; 1].
-Proof. split; [repeat constructor; cbn; lia|]. split; vm_compute; reflexivity. Qed.
+  m_get [] (run true ops st1) [97] = Some [3; 3] /\
+  length (b_log (run true ops st1)) = 3%nat /\     (* 22 appended (protected 11), 33 written in place over 22 *)
+  m_get [] (step true (run true ops st1) (ORevert (checkpoint_pos st))) [97] = Some [1; 1].
+Proof. split; [repeat constructor; cbn; lia|]. repeat split; vm_compute; reflexivity. Qed.
 
 (* reverse iteration with bounds on inputs that are only sorted descending (the contract of IterReverse) *)
 Example iter_contract_example :
